@@ -136,8 +136,17 @@ class Executor(ResolutionContext):
 
         if isinstance(maybe_type, str):
             return self.schema.get_type(maybe_type)  # type: ignore
-        else:
-            return maybe_type
+
+        # A type resolver may return the ObjectType itself. The object it
+        # refers to belongs to the schema the resolver was written for: in a
+        # schema derived from it (clone, extension, transform) the type of that
+        # name is a different object, which is the one to use.
+        if isinstance(maybe_type, ObjectType):
+            return self.schema.types.get(  # type: ignore
+                maybe_type.name, maybe_type
+            )
+
+        return maybe_type
 
     def resolve_field(
         self,
